@@ -42,7 +42,7 @@ int __wrap_posix_memalign(void **p, size_t al, size_t n) { if (af_hit()) return 
 /* ---- operands and results, allocated once per line outside the injection window ---- */
 #define AF_NB 6
 #define AF_NSIM 5
-static bn_t B[AF_NB], R[4];
+static bn_t B[AF_NB], R[4], BB[2];   /* BB: operands beyond the initial capacity (ALLOC=DYNAMIC grows them with realloc) */
 static ep_t P[AF_NSIM], RP;
 static ep2_t P2[2], RP2;
 static eb_t PB[2], RPB;
@@ -87,6 +87,13 @@ static int af_call(const char *fn) {
 	else if (!strcmp(fn, "bn_sqr")) bn_sqr(R[0], B[0]);
 	else if (!strcmp(fn, "bn_add")) bn_add(R[0], B[0], B[1]);
 	else if (!strcmp(fn, "bn_lsh")) bn_lsh(R[0], B[0], (int)(B[1]->dp[0] % (RLC_BN_BITS / 2)));
+	/* results beyond the initial RLC_BN_SIZE digits: the result objects keep their storage between the runs of one line, so a failed
+	 * growth must leave them consistent for the next run */
+	else if (!strcmp(fn, "bn_lsh_big")) bn_lsh(R[0], B[0], 2300 + (int)(B[1]->dp[0] % 200));
+	else if (!strcmp(fn, "bn_mul_big")) bn_mul(R[0], BB[0], BB[1]);
+	else if (!strcmp(fn, "bn_sqr_big")) bn_sqr(R[0], BB[0]);
+	else if (!strcmp(fn, "bn_add_big")) { bn_copy(R[0], B[1]); bn_add(R[0], R[0], BB[0]); }
+	else if (!strcmp(fn, "bn_div_big")) bn_div_rem(R[0], R[1], BB[0], B[2]);
 	else if (!strcmp(fn, "bn_div_rem")) bn_div_rem(R[0], R[1], B[0], B[2]);
 	else if (!strcmp(fn, "bn_mod")) bn_mod(R[0], B[0], B[2]);
 	else if (!strcmp(fn, "bn_mod_barrt")) { bn_mod_pre_barrt(R[1], B[2]); bn_mod_barrt(R[0], B[0], B[2], R[1]); }
@@ -202,9 +209,11 @@ static int af_call(const char *fn) {
 /* a fresh instantiation (rand_seed on a seeded generator would be a reseed that mixes the old state in) */
 static void seed_fixed(void) { core_get()->seeded = 0; rand_seed(SEED, sizeof(SEED)); }
 
+static int af_fresh = 0;   /* 1: the run starts with newly created (small) integer result objects */
 static char *run_once(const char *fn, long fail_at, int *reported, long *count, long *fired) {
 	char *buf = NULL; size_t bl = 0;
 	volatile int caught = 0;
+	if (af_fresh) for (int i = 0; i < 2; i++) { bn_free(R[i]); bn_null(R[i]); bn_new(R[i]); }
 	results_reset();
 	seed_fixed();
 	err_get_code();
@@ -236,6 +245,7 @@ static void op_af(int argc, char **argv) {
 		if (ep_param_get() == 0 && (ep_param_set_any() != RLC_OK || take_err())) { fprintf(OUT, "no-curve\n"); return; }
 		for (int i = 0; i < AF_NB; i++) { bn_null(B[i]); bn_new(B[i]); }
 		for (int i = 0; i < 4; i++) { bn_null(R[i]); bn_new(R[i]); }
+		for (int i = 0; i < 2; i++) { bn_null(BB[i]); bn_new(BB[i]); }
 		for (int i = 0; i < AF_NSIM; i++) { ep_null(P[i]); ep_new(P[i]); bn_null(K[i]); bn_new(K[i]); }
 		for (int i = 0; i < (1 << 8); i++) { ep_null(TAB[i]); ep_new(TAB[i]); }
 		ep_null(RP); ep_new(RP);
@@ -252,6 +262,9 @@ static void op_af(int argc, char **argv) {
 		if (eb_param_set_any() != RLC_OK || take_err()) { fprintf(OUT, "no-binary-curve\n"); return; }
 	}
 	for (int i = 0; i < 3; i++) { raw_parse(&r, argv[2 + i]); raw_to_bn(B[i], &r); }
+	if (!strncmp(fn + strlen(fn) - 4, "_big", 4)) {
+		bn_lsh(BB[0], B[0], 1500); bn_add(BB[0], BB[0], B[1]); bn_lsh(BB[1], B[1], 1400); bn_add(BB[1], BB[1], B[0]);
+	}
 	if (bn_is_zero(B[2])) bn_set_dig(B[2], 3);
 	bn_abs(B[2], B[2]);
 	{
@@ -290,12 +303,16 @@ static void op_af(int argc, char **argv) {
 		take_err();
 	}
 	int rep0 = 0; long n = 0, fired = 0;
+	int big = strlen(fn) > 4 && !strcmp(fn + strlen(fn) - 4, "_big");
+	af_fresh = big;
 	char *ref = run_once(fn, 0, &rep0, &n, &fired);
 	long tested = 0, nf = 0, nrep = 0, nabs = 0, nsil = 0, nus = 0, first = 0;
 	long stride = n <= AF_ALL ? 1 : (n + AF_ALL - 1) / AF_ALL;
 	for (long i = 1; i <= n; i += (i <= AF_ALL / 2 ? 1 : stride)) {
 		int rep = 0; long c = 0, f = 0;
+		af_fresh = big;
 		char *o = run_once(fn, i, &rep, &c, &f);
+		af_fresh = 0;              /* the run without a failure reuses the objects the failed run left behind */
 		tested++;
 		if (f) {
 			nf++;
